@@ -167,13 +167,15 @@ func executeSlot(c *hx.Case) (*hx.Result, error) {
 		return nil, err
 	}
 	go func() { opr.Start(ctx); close(stopped) }()
-	defer func() {
+	defer func() { // runs BEFORE the deferred RemoveAll: the operator's Start has returned (database closed) before its directory goes
 		cancel()
 		select {
 		case <-stopped:
 		case <-time.After(waitFor):
 		}
 	}()
+	// Every barrier request either returns or announces that it parked (hook operator.align.park, confirmed through the
+	// slot accessor): both are events; `waitFor` (60 s) is the wedged verdict (result 4), never a way to see "parked".
 	// result of one barrier: 0 registered, 1 rejected, 2 completed the checkpoint (ack sent to the job), 3 parked by alignSender, 4 no answer
 	barrier := func(sender int, id int) uint64 {
 		job.mu.Lock()
